@@ -130,4 +130,107 @@ theorem solo_acquires {s : State} (inv : Inv s) (w : Nat) (hw : (s.pc w).inLoop)
   | done => rw [hpc] at hw; simp [PC.inLoop] at hw
   | dead => rw [hpc] at hw; simp [PC.inLoop] at hw
 
+/-! ### progress from every program counter of the acquisition path -/
+
+/-- the process is trying to acquire (anywhere between calling `Lock()` and its return) -/
+def PC.contending : PC → Prop
+  | .idle => True
+  | .opened _ => True
+  | .locked _ => True
+  | .statted _ => True
+  | .verified _ => True
+  | .truncated _ => True
+  | .mismatch _ => True
+  | .busy _ => True
+  | .readPid => True
+  | .waiting => True
+  | _ => False
+
+theorem solo_from_truncated {s : State} (w n : Nat) (hw : s.pc w = .truncated n) :
+    (solo w 1 s).pc w = .holding n := by
+  have h : step s (.step w) = some (s.setPc w (.holding n)) := by simp only [step, hw]
+  rw [solo_succ h]; simp [solo]
+
+theorem solo_from_verified {s : State} (w n : Nat) (hw : s.pc w = .verified n) :
+    (solo w 2 s).pc w = .holding n := by
+  have h : step s (.step w) = some (s.setPc w (.truncated n)) := by simp only [step, hw]
+  rw [solo_succ h]; exact solo_from_truncated w n (by simp)
+
+/-- `mismatch n` (the path no longer names the inode we locked): close, retry at once, acquire. -/
+theorem solo_from_mismatch {s : State} (inv : Inv s) (w n : Nat) (hw : s.pc w = .mismatch n)
+    (others : ∀ j, j ≠ w → (s.pc j).noLock) :
+    ∃ m, (solo w 7 s).pc w = .holding m := by
+  have h : step s (.step w) = some ((s.release w n).setPc w .idle) := by simp only [step, hw]
+  obtain ⟨inv', others'⟩ := loop_step_keeps inv h others
+  obtain ⟨m, hm⟩ := solo_from_idle inv' w (by simp) others'
+  exact ⟨m, by rw [solo_succ h]; exact hm⟩
+
+/-- `statted n`: the re-check. Either the path still names `n` (three more calls) or it does not — the
+    previous holder unlinked it while we held a descriptor on the old inode — and we go round once more. -/
+theorem solo_from_statted {s : State} (inv : Inv s) (w n : Nat) (hw : s.pc w = .statted n)
+    (others : ∀ j, j ≠ w → (s.pc j).noLock) :
+    ∃ k, k ≤ 8 ∧ ∃ m, (solo w k s).pc w = .holding m := by
+  by_cases hp : s.path = some n
+  · have h : step s (.step w) = some (s.setPc w (.verified n)) := by simp only [step, hw, hp, if_true]
+    exact ⟨3, by omega, n, by rw [solo_succ h]; exact solo_from_verified w n (by simp)⟩
+  · have h : step s (.step w) = some (s.setPc w (.mismatch n)) := by simp only [step, hw, hp, if_false]
+    obtain ⟨inv', others'⟩ := loop_step_keeps inv h others
+    obtain ⟨m, hm⟩ := solo_from_mismatch inv' w n (by simp) others'
+    exact ⟨8, by omega, m, by rw [solo_succ h]; exact hm⟩
+
+theorem solo_from_locked {s : State} (inv : Inv s) (w n : Nat) (hw : s.pc w = .locked n)
+    (others : ∀ j, j ≠ w → (s.pc j).noLock) :
+    ∃ k, k ≤ 9 ∧ ∃ m, (solo w k s).pc w = .holding m := by
+  have h : step s (.step w) = some (s.setPc w (.statted n)) := by simp only [step, hw]
+  obtain ⟨inv', others'⟩ := loop_step_keeps inv h others
+  obtain ⟨k, hk, m, hm⟩ := solo_from_statted inv' w n (by simp) others'
+  exact ⟨k + 1, by omega, m, by rw [solo_succ h]; exact hm⟩
+
+theorem solo_from_opened {s : State} (inv : Inv s) (w n : Nat) (hw : s.pc w = .opened n)
+    (others : ∀ j, j ≠ w → (s.pc j).noLock) :
+    ∃ k, k ≤ 10 ∧ ∃ m, (solo w k s).pc w = .holding m := by
+  have hfree : s.flock n = none := by
+    cases hf : s.flock n with
+    | none => rfl
+    | some j =>
+      have ho := inv.held j n hf
+      by_cases e : j = w
+      · subst e; rw [hw] at ho; simp [PC.owns] at ho
+      · exact absurd ho (others j e n)
+  have h : step s (.step w) =
+      some ({ s with flock := fun m => if m = n then some w else s.flock m }.setPc w (.locked n)) := by
+    simp only [step, hw, hfree]
+  obtain ⟨inv', others'⟩ := loop_step_keeps inv h others
+  obtain ⟨k, hk, m, hm⟩ := solo_from_locked inv' w n (by simp) others'
+  exact ⟨k + 1, by omega, m, by rw [solo_succ h]; exact hm⟩
+
+/-- From *every* program counter of the acquisition path — including the ones at which the process
+    holds a descriptor (and possibly the flock) on an inode the lock path no longer names — a contender
+    that runs alone while nobody else holds a flock is past acquisition within ten of its own calls. -/
+theorem solo_acquires_contending {s : State} (inv : Inv s) (w : Nat) (hw : (s.pc w).contending)
+    (others : ∀ j, j ≠ w → (s.pc j).noLock) :
+    ∃ k, k ≤ 10 ∧ ∃ n, (solo w k s).pc w = .holding n := by
+  cases hpc : s.pc w with
+  | idle => obtain ⟨k, hk, r⟩ := solo_acquires inv w (by rw [hpc]; trivial) others; exact ⟨k, by omega, r⟩
+  | busy m => obtain ⟨k, hk, r⟩ := solo_acquires inv w (by rw [hpc]; trivial) others; exact ⟨k, by omega, r⟩
+  | readPid => obtain ⟨k, hk, r⟩ := solo_acquires inv w (by rw [hpc]; trivial) others; exact ⟨k, by omega, r⟩
+  | waiting => obtain ⟨k, hk, r⟩ := solo_acquires inv w (by rw [hpc]; trivial) others; exact ⟨k, by omega, r⟩
+  | opened n => exact solo_from_opened inv w n hpc others
+  | locked n => obtain ⟨k, hk, r⟩ := solo_from_locked inv w n hpc others; exact ⟨k, by omega, r⟩
+  | statted n => obtain ⟨k, hk, r⟩ := solo_from_statted inv w n hpc others; exact ⟨k, by omega, r⟩
+  | verified n => exact ⟨2, by omega, n, solo_from_verified w n hpc⟩
+  | truncated n => exact ⟨1, by omega, n, solo_from_truncated w n hpc⟩
+  | mismatch n => obtain ⟨m, hm⟩ := solo_from_mismatch inv w n hpc others; exact ⟨7, by omega, m, hm⟩
+  | holding _ => rw [hpc] at hw; simp [PC.contending] at hw
+  | unlocking _ => rw [hpc] at hw; simp [PC.contending] at hw
+  | removed _ => rw [hpc] at hw; simp [PC.contending] at hw
+  | done => rw [hpc] at hw; simp [PC.contending] at hw
+  | dead => rw [hpc] at hw; simp [PC.contending] at hw
+
+/-- no contender is ever stuck: its pending call is always enabled -/
+theorem contending_enabled (s : State) (w : Nat) (hw : (s.pc w).contending) :
+    (step s (.step w)).isSome = true := by
+  cases hpc : s.pc w <;> rw [hpc] at hw <;> simp [PC.contending] at hw <;> simp only [step, hpc] <;>
+    (repeat' split) <;> simp
+
 end Grog.Lock
